@@ -980,6 +980,8 @@ def np_isnan(x):
         return x.fresh_like(values._fn1('isnan', x.t))
     if isinstance(x, Sym):
         return Sym(values._fn1('isnan', x.t))
+    if isinstance(x, Arr2):
+        return Arr2([c.fresh_like(values._fn1('isnan', c.t)) for c in x.cols], x.n)
     if isinstance(x, (int, float)):
         return x != x
     if hasattr(x, 'sym_isnan'):
@@ -2137,3 +2139,248 @@ def sp_fmin_slsqp(f, x0, iprint=None, bounds=None, **kw):
 
 
 SCIPY_OPTIMIZE._table['fmin_slsqp'] = sp_fmin_slsqp
+
+
+# ------------------------------------------------------------------------------------------------
+# small concrete-shape linear algebra (correlation matrices, conditional distributions)
+# ------------------------------------------------------------------------------------------------
+
+def _ca_elem(op, a, b):
+    import ast as _ast
+    return _I().binop(getattr(_ast, op)(), a, b)
+
+
+def _ca_data(x):
+    if isinstance(x, ConcArr):
+        return x.data
+    if hasattr(x, 'is_series') and hasattr(x, 'vals'):
+        return list(x.vals)
+    if hasattr(x, 'is_frame') and hasattr(x, 'data'):
+        return [list(r) for r in x.data]
+    return None
+
+
+def _concarr_binop(self, interp, op, other, reflected):
+    a = self.data
+    b = _ca_data(other)
+    if op == 'MatMult':
+        if b is None:
+            return NotImplemented
+        A, B = (b, a) if reflected else (a, b)
+        return ConcArr(_matmul(A, B)) if True else None
+    if b is None:
+        if isinstance(other, (Sym, int, float)):
+            def rec(d):
+                if isinstance(d, list):
+                    return [rec(x) for x in d]
+                return _ca_elem(op, other, d) if reflected else _ca_elem(op, d, other)
+            return ConcArr(rec(a))
+        return NotImplemented
+
+    def rec2(x, y):
+        if isinstance(x, list) and isinstance(y, list):
+            if len(x) != len(y):
+                raise Unsupported('shape mismatch in small-array arithmetic')
+            return [rec2(p, q) for p, q in zip(x, y)]
+        if isinstance(x, list):
+            return [rec2(p, y) for p in x]
+        if isinstance(y, list):
+            return [rec2(x, q) for q in y]
+        return _ca_elem(op, y, x) if reflected else _ca_elem(op, x, y)
+    return ConcArr(rec2(a, b))
+
+
+def _matmul(A, B):
+    def is2(M):
+        return bool(M) and isinstance(M[0], list)
+    add = lambda xs: functools.reduce(lambda p, q: _ca_elem('Add', p, q), xs) if xs else 0
+    if is2(A) and is2(B):
+        return [[add([_ca_elem('Mult', A[i][k], B[k][j]) for k in range(len(B))]) for j in range(len(B[0]))]
+                for i in range(len(A))]
+    if is2(A) and not is2(B):
+        if A and len(A[0]) != len(B):
+            _raise('ValueError', 'matmul: shapes not aligned')
+        return [add([_ca_elem('Mult', A[i][k], B[k]) for k in range(len(B))]) for i in range(len(A))]
+    if not is2(A) and is2(B):
+        return [add([_ca_elem('Mult', A[k], B[k][j]) for k in range(len(A))]) for j in range(len(B[0]))]
+    return add([_ca_elem('Mult', x, y) for x, y in zip(A, B)])
+
+
+ConcArr.sym_binop = _concarr_binop
+ConcArr.readonly = False
+_old_ca_setitem = ConcArr.sym_setitem
+
+
+def _ca_setitem(self, interp, key, v):
+    if getattr(self, 'readonly', False):
+        _raise('ValueError', 'assignment destination is read-only')
+    owner = getattr(self, 'owner', None)
+    if owner is not None:
+        State.ctx.event('mutate', owner, State.where)
+    return _old_ca_setitem(self, interp, key, v)
+
+
+ConcArr.sym_setitem = _ca_setitem
+
+
+def _ca_nan_to_num(self, interp, nan=0.0):
+    def rec(d):
+        if isinstance(d, list):
+            return [rec(x) for x in d]
+        t = to_term(d)
+        return Sym(ir.ite(values._fn1('isnan', t), to_term(nan), t))
+    return ConcArr(rec(self.data))
+
+
+ConcArr.sym_nan_to_num = _ca_nan_to_num
+ConcArr.sym_isnan = lambda self, interp: ConcArr(_deep_map(self.data, lambda d: Sym(values._fn1('isnan', to_term(d)))))
+
+
+def _deep_map(d, f):
+    return [_deep_map(x, f) for x in d] if isinstance(d, list) else f(d)
+
+
+def _mat_terms(M):
+    d = _ca_data(M) if not isinstance(M, list) else M
+    if d is None:
+        raise Unsupported('matrix argument %r' % (M,))
+    return [to_term(x) for x in _flat(d)] if d and isinstance(d[0], list) else [to_term(x) for x in d]
+
+
+@model('np.linalg.cond/inv', 'np.linalg.cond(A): the 2-norm condition number (a deterministic function of A, >= 1, +inf for a '
+       'singular matrix); np.linalg.inv(A): the matrix inverse (deterministic function of A)')
+def np_linalg_cond(A):
+    ts = _mat_terms(A)
+    t = ir.uf('cond', ts)
+    State.ctx.assume(ir.ge(t, 1))
+    return Sym(t)
+
+
+def np_linalg_inv(A):
+    d = _ca_data(A)
+    ts = _mat_terms(A)
+    n = len(d)
+    return ConcArr([[Sym(ir.uf('inv', ts + [ir.const(i), ir.const(j)])) for j in range(n)] for i in range(n)])
+
+
+NP._table['linalg'] = Stub('numpy.linalg', {'cond': np_linalg_cond, 'inv': np_linalg_inv})
+
+
+def _np_zeros2(shape, dtype=None):
+    if isinstance(shape, int) and not isinstance(shape, bool):
+        return ConcArr([0] * shape)
+    if isinstance(shape, (list, tuple)) and len(shape) == 2 and all(isinstance(s, int) for s in shape):
+        return ConcArr([[0] * shape[1] for _ in range(shape[0])])
+    if isinstance(shape, (list, tuple)) and len(shape) == 1 and isinstance(shape[0], int):
+        return ConcArr([0] * shape[0])
+    return np_zeros(shape, dtype)
+
+
+def _np_full2(shape, val, dtype=None):
+    if isinstance(shape, int) and not isinstance(shape, bool):
+        return ConcArr([val] * shape)
+    return np_full(shape, val, dtype)
+
+
+def _np_empty(shape, dtype=None):
+    USED['np.empty'] = 'np.empty(shape): a fresh array whose cells are UNDEFINED until written (reading one is a safety violation)'
+    if isinstance(shape, int):
+        shape = [shape]
+    if isinstance(shape, (list, tuple)) and all(isinstance(s, int) for s in shape):
+        def mk(dims):
+            if len(dims) == 1:
+                return [values.Undef for _ in range(dims[0])]
+            return [mk(dims[1:]) for _ in range(dims[0])]
+        return ConcArr(mk(list(shape)))
+    raise Unsupported('np.empty with a symbolic shape')
+
+
+NP._table.update({'zeros': _np_zeros2, 'full': _np_full2, 'empty': _np_empty,
+                  'arange': lambda n, **k: ConcArr(list(range(n if isinstance(n, int) else _I().concrete_index(n))))})
+
+
+@model('np.random.multivariate_normal', 'np.random.multivariate_normal(mean, cov, size=n): n draws from N(mean, cov) as an '
+       '(n, d) array; a deterministic function of the global generator state, mean and cov; consumes only the global state')
+def np_random_mvn(mean, cov, size=None, **kw):
+    mt = _mat_terms(mean) if not isinstance(mean, Lane) else [mean.whole()]
+    ct = _mat_terms(cov)
+    d = len(mt)
+    n = size if size is not None else 1
+    g = RNG.advance('multivariate_normal', [n])
+    cols = [Lane(ir.uf('mvn.draw', [g, ir.const(k)] + mt + ct + [to_term(n), values.IDX]), n) for k in range(d)]
+    State.ctx.event('mvn_draw', {'mean': mt, 'cov': ct, 'n': to_term(n), 'state': g}, State.where)
+    return Arr2(cols, n)
+
+
+NP_RANDOM._table['multivariate_normal'] = np_random_mvn
+
+
+class _MvnDist(object):
+    """scipy.stats.multivariate_normal: ASSUMED CONTRACT. pdf(Z, cov=C, allow_singular=...) is the zero-mean normal
+    density with covariance C evaluated row by row; cdf(Z, cov=C) the corresponding CDF (in [0,1], non-decreasing in
+    each coordinate, computed by a randomised quasi-Monte-Carlo integration for d >= 3 up to abseps = 1e-5)."""
+    def sym_getattr(self, interp, name):
+        if name in ('pdf', 'cdf', 'logpdf'):
+            def f(Z, mean=None, cov=1, allow_singular=False, **kw):
+                USED['scipy.stats.multivariate_normal'] = _MvnDist.__doc__
+                ct = _mat_terms(cov)
+                if isinstance(Z, Arr2):
+                    zs = [c.t for c in Z.cols]
+                    t = ir.uf('mvn.' + name, zs + ct + [ir.const(bool(allow_singular))])
+                    if name == 'cdf':
+                        State.ctx.assume(ir.and_(ir.ge(t, 0), ir.le(t, 1)))
+                    if name == 'pdf':
+                        State.ctx.assume(ir.ge(t, 0))
+                    State.ctx.event('mvn_eval', {'what': name, 'z': zs, 'cov': ct, 'allow_singular': bool(allow_singular),
+                                                 'mean': mean}, State.where)
+                    return Lane(t, Z.n) if not values._is_one(Z.n) else Lane(t, 1)
+                raise Unsupported('multivariate_normal.%s on %r' % (name, Z))
+            return f
+        raise Unsupported('multivariate_normal.' + name)
+
+
+SCIPY_STATS._table['multivariate_normal'] = _MvnDist()
+
+_old_num = _num
+
+
+def _num(x):                                   # noqa: F811  (extends the earlier helper with pandas columns)
+    if hasattr(x, 'is_series') and hasattr(x, 'lane'):
+        return x.lane
+    return _old_num(x)
+
+
+_old_lib_getattr = lib_getattr
+
+
+def lib_getattr(interp, obj, name):             # noqa: F811
+    if isinstance(obj, bool) and name in ('any', 'all'):
+        return lambda *a, **k: obj
+    return _old_lib_getattr(interp, obj, name)
+
+
+def _lane_clip(self, lo, hi):
+    return values.clip(self, _num(lo), _num(hi))
+
+
+Lane.clip = _lane_clip
+Arr2.clip = lambda self, lo, hi: Arr2([values.clip(c, _num(lo), _num(hi)) for c in self.cols], self.n)
+
+
+class LinAlgErrorCls(Exception):
+    pass
+
+
+def np_linalg_cholesky(A):
+    USED['np.linalg.cholesky'] = ('np.linalg.cholesky(A): returns the Cholesky factor iff A is (numerically) positive '
+                                  'definite - an uninterpreted predicate is_pd(A) - and raises LinAlgError otherwise')
+    ts = _mat_terms(A)
+    if not State.ctx.branch(ir.uf('is_pd', ts, 'B')):
+        from .interp import PyRaise, ExcVal
+        raise PyRaise(ExcVal(LinAlgErrorCls, ['Matrix is not positive definite']))
+    d = _ca_data(A)
+    n = len(d)
+    return ConcArr([[Sym(ir.uf('chol', ts + [ir.const(i), ir.const(j)])) for j in range(n)] for i in range(n)])
+
+
+NP._table['linalg']._table.update({'cholesky': np_linalg_cholesky, 'LinAlgError': LinAlgErrorCls})
